@@ -15,6 +15,13 @@ Open Scope N_scope.
 
 Definition is_short (T : tables) (c : etree + cdata) : bool :=
   match c with inl e => e_name e =? name_short_name T | inr _ => false end.
+(* only a SHORT-NAME that is the FIRST content item names its element (fix: late SHORT-NAME) *)
+Definition emptyb {A} (l : list A) : bool := match l with [] => true | _ :: _ => false end.
+Definition head_short (T : tables) (l : list (etree + cdata)) : bool := match l with c :: _ => is_short T c | [] => false end.
+Lemma head_short_snoc T pre x : head_short T (pre ++ [x]) = if emptyb pre then is_short T x else head_short T pre.
+Proof. destruct pre; reflexivity. Qed.
+Lemma head_short_app T pre l : pre <> [] -> head_short T (pre ++ l) = head_short T pre.
+Proof. destruct pre; [congruence|reflexivity]. Qed.
 
 (* loop iterations an item costs its parent: a comment in front of an element is an event of its own *)
 Definition e_comment (e : etree) : option (list N) := match e with ENode _ _ _ _ cm => cm end.
@@ -146,7 +153,7 @@ Inductive Canon : etree -> Prop :=
     ElemNameOk name nm -> AttrsOk T tab_at tab_en check_fn float_fmt float_parse ver ty attrs ->
     content_mode T ty = Val mode -> ShapeOk mode content ->
     ChildrenOk ty mode [] [] content ->
-    is_named_in_version T ty ver = Val named -> (named = true -> existsb (is_short T) content = true) ->
+    is_named_in_version T ty ver = Val named -> (named = true -> head_short T content = true) ->
     Canon (ENode name ty attrs content cm)
 with ChildrenOk : etype -> N -> list N -> list (etree + cdata) -> list (etree + cdata) -> Prop :=
 | ck_nil ty mode prev pre : ChildrenOk ty mode prev pre []
@@ -353,7 +360,7 @@ Qed.
 Definition after_child (rec : recT) (k : nat) (pname : N) (pty : etype) (pattrs : list (N * cdata)) (pcomment : option (list N))
     (ppos : list nat) (pcontent : list (etree + cdata)) (idx : list N) (psnf : bool) (ppath : list N) (sub_name : N) : etree -> M etree :=
   fun sub =>
-    if sub_name =? name_short_name T then
+    if (sub_name =? name_short_name T) && emptyb pcontent then
       match first_string sub with
       | Some name_string =>
         mbind (modify (fun st => add_ident st (ppath ++ [47] ++ name_string, rev ppos)))
@@ -365,10 +372,10 @@ Definition after_child (rec : recT) (k : nat) (pname : N) (pty : etype) (pattrs 
 Lemma after_child_ok rec k pname pty pattrs pcomment ppos pcontent idx psnf ppath sub_name sub st5 :
   exists path' st',
     after_child rec k pname pty pattrs pcomment ppos pcontent idx psnf ppath sub_name sub st5
-    = PL rec k pname pty pattrs pcomment ppos (pcontent ++ [inl sub]) idx (if sub_name =? name_short_name T then true else psnf) None path' st'
+    = PL rec k pname pty pattrs pcomment ppos (pcontent ++ [inl sub]) idx (if (sub_name =? name_short_name T) && emptyb pcontent then true else psnf) None path' st'
     /\ same_core st5 st'.
 Proof.
-  unfold after_child. destruct (sub_name =? name_short_name T).
+  unfold after_child. destruct ((sub_name =? name_short_name T) && emptyb pcontent).
   - destruct (first_string sub) as [s0|].
     + eexists _, _. split; [reflexivity|]. repeat split.
     + exists ppath, st5. split; [reflexivity|apply same_core_refl].
@@ -472,7 +479,7 @@ Definition StepOK (f lf d : nat) : Prop :=
     exists path' st',
       PL (PE f lf) (cost (inl c) + k) pname pty pattrs pcomment ppos pcontent pidx psnf None ppath st
       = PL (PE f lf) k pname pty pattrs pcomment ppos (pcontent ++ [inl c]) idx
-           (if e_name c =? name_short_name T then true else psnf) None path' st'
+           (if (e_name c =? name_short_name T) && emptyb pcontent then true else psnf) None path' st'
       /\ adv st st' tail.
 
 Lemma canon_inline_starts60 c indent bytes : Canon c -> SER c indent true = Val bytes -> starts60 bytes.
@@ -504,8 +511,8 @@ Lemma children_loop f lf d : StepOK f lf d ->
     ItemsSer indent inline l bs ->
     (Forall (fun c => is_text c = false) l \/ (inline = true /\ wsc = [] /\ no_adjacent l)) ->
     at_rest st (bs ++ closing wsc nm ++ tail) -> p_version st = ver ->
-    (lcost l < k)%nat -> snf = existsb (is_short T) pre ->
-    (named = true -> existsb (is_short T) (pre ++ l) = true) ->
+    (lcost l < k)%nat -> snf = head_short T pre ->
+    (named = true -> head_short T (pre ++ l) = true) ->
     exists st', PL (PE f lf) k cname cty cattrs ccm pos pre prev snf None path st
                 = Val (Ret (ENode cname cty cattrs (pre ++ l) ccm) st') /\ adv st st' tail.
 Proof.
@@ -513,7 +520,7 @@ Proof.
   induction l as [|item l IH]; intros pre prev snf path st k bs tail CK DW IS TX AR PV LK SNF NAMED.
   - inversion IS; subst. cbn [app] in AR. rewrite app_nil_r. destruct k as [|k]; [cbn in LK; lia|].
     rewrite closing_app in AR.
-    apply (end_step (PE f lf) k cname cty cattrs ccm pos pre prev (existsb (is_short T) pre) None path st wsc nm tail named EN NV
+    apply (end_step (PE f lf) k cname cty cattrs ccm pos pre prev (head_short T pre) None path st wsc nm tail named EN NV
              ltac:(rewrite app_nil_r in NAMED; exact NAMED) WSC AR PV).
   - cbn [lcost] in LK.
     assert (TX' : Forall (fun c => is_text c = false) l \/ (inline = true /\ wsc = [] /\ no_adjacent l)).
@@ -524,16 +531,16 @@ Proof.
       inversion IS as [|c0 l0 b bs' SB IS'|]; subst. rewrite <- app_assoc in AR.
       destruct (DW c (or_introl eq_refl)) as [DC WC].
       replace k with (cost (inl c) + (k - cost (inl c)))%nat by lia.
-      destruct (STEP c CA DC WC indent inline b SB (k - cost (inl c))%nat cname cty cattrs ccm pos pre prev (existsb (is_short T) pre) path st
+      destruct (STEP c CA DC WC indent inline b SB (k - cost (inl c))%nat cname cty cattrs ccm pos pre prev (head_short T pre) path st
                   (bs' ++ closing wsc nm ++ tail) idx FS CO MO AR PV)
         as (path' & st1 & E1 & A1).
       rewrite E1.
-      destruct (IH (pre ++ [inl c]) idx (if e_name c =? name_short_name T then true else existsb (is_short T) pre) path' st1
+      destruct (IH (pre ++ [inl c]) idx (if (e_name c =? name_short_name T) && emptyb pre then true else head_short T pre) path' st1
                   (k - cost (inl c))%nat bs' tail
                   CK' DW' IS' TX' ltac:(destruct A1 as (A & _); exact A) ltac:(destruct A1 as (_ & V & _); congruence)
                   ltac:(lia)
-                  ltac:(rewrite existsb_app; cbn [existsb is_short]; rewrite orb_false_r; destruct (e_name c =? name_short_name T);
-                        [rewrite orb_true_r|rewrite orb_false_r]; reflexivity)
+                  ltac:(rewrite head_short_snoc; cbn [is_short]; destruct pre; cbn [emptyb head_short];
+                        [rewrite andb_true_r; destruct (e_name c =? name_short_name T); reflexivity|rewrite andb_false_r; reflexivity])
                   ltac:(rewrite <- app_assoc; exact NAMED))
         as (st2 & E2 & A2).
       exists st2. rewrite E2, <- app_assoc. split; [reflexivity|]. eapply adv_trans; eassumption.
@@ -549,13 +556,13 @@ Proof.
           eexists. reflexivity.
         - specialize (NA (inr v) (inr v1) [] l1 eq_refl eq_refl). discriminate NA. }
       destruct N60 as (X & EX). rewrite EX in AR.
-      destruct (text_step (PE f lf) k cname cty cattrs ccm pos pre prev (existsb (is_short T) pre) None path st v vb X mode cs isr
+      destruct (text_step (PE f lf) k cname cty cattrs ccm pos pre prev (head_short T pre) None path st v vb X mode cs isr
                   CS IR VO SV MF NW CM PRE AR PV) as (st1 & E1 & A1).
       rewrite E1.
-      destruct (IH (pre ++ [inr v]) prev (existsb (is_short T) pre) path st1 k bs' tail
+      destruct (IH (pre ++ [inr v]) prev (head_short T pre) path st1 k bs' tail
                   CK' DW' IS' TX' ltac:(destruct A1 as (A & _); rewrite <- EX in A; exact A)
                   ltac:(destruct A1 as (_ & V & _); congruence) ltac:(lia)
-                  ltac:(rewrite existsb_app; cbn [existsb is_short]; rewrite !orb_false_r; reflexivity)
+                  ltac:(rewrite head_short_snoc; destruct pre; reflexivity)
                   ltac:(rewrite <- app_assoc; exact NAMED))
         as (st2 & E2 & A2).
       exists st2. rewrite E2, <- app_assoc. split; [reflexivity|]. eapply adv_trans; eassumption.
@@ -653,7 +660,7 @@ Proof.
               exists path' st',
                 PL (PE (S f) lf) (cost (inl (ENode name ty attrs content cm)) + k) pname pty pattrs pcomment ppos pcontent pidx psnf None ppath st
                 = PL (PE (S f) lf) k pname pty pattrs pcomment ppos (pcontent ++ [inl (ENode name ty attrs content cm)]) idx
-                     (if name =? name_short_name T then true else psnf) None path' st' /\ adv st st' tail).
+                     (if (name =? name_short_name T) && emptyb pcontent then true else psnf) None path' st' /\ adv st st' tail).
     { intros body wsc indent' inline' WSC IS TX EB. subst bytes.
       destruct (CMT ([60] ++ nm ++ ats ++ [62] ++ body ++ closing wsc nm ++ tail)) as (st0 & E0 & A0).
       { norm_in AR. norm_goal. exact AR. }
